@@ -112,6 +112,18 @@ example :
       [.allow ⟨.v4 0xC0000207, 0, 200⟩, .gc (70 * nano), .allow ⟨.v4 0xC0000207, 71 * nano, 200⟩]
       = [true, false] := by decide
 
+/-- the three sequential orders of (gc pass, arrival of the whole burst, second such arrival at
+    the same instant) on a full bucket that has been idle for 10 minutes: never both admitted.
+    (Component `limiter_gcrace` looks for the outcome "both admitted" under real concurrency.) -/
+example :
+    let c : Opts := ⟨1, 1000, 0, 0⟩
+    let a : Addr := .v4 0xC0000207
+    let now := 600 * nano
+    (ClientLimiter.new c).runOps [.allow ⟨a, 0, 0⟩, .gc now, .allow ⟨a, now, 1000⟩, .allow ⟨a, now, 1000⟩] = [true, true, false] ∧
+    (ClientLimiter.new c).runOps [.allow ⟨a, 0, 0⟩, .allow ⟨a, now, 1000⟩, .gc now, .allow ⟨a, now, 1000⟩] = [true, true, false] ∧
+    (ClientLimiter.new c).runOps [.allow ⟨a, 0, 0⟩, .allow ⟨a, now, 1000⟩, .allow ⟨a, now, 1000⟩, .gc now] = [true, true, false] := by
+  decide
+
 /-! ## which subnet is the key -/
 
 /-- ★ **subnet_default.**  With the masks omitted (0) — or impossible (≤ 0, > 32 / > 128) —
@@ -400,23 +412,20 @@ theorem pins_defaults :
     Facts.lim_sd_v6_assign_count = 1 ∧
     Facts.lim_new_setDefault = "opts.setDefault()" := ⟨rfl, rfl, rfl, rfl, rfl, rfl⟩
 
-/-- `mask` unmaps, then masks IPv4 with `V4Mask` and IPv6 with `V6Mask`; `AllowN` keys the table by the masked address, creates `rate.NewLimiter(Limit, Burst)` and asks it at the caller's time -/
+/-- `mask` unmaps, then masks IPv4 with `V4Mask` and IPv6 with `V6Mask`; `AllowN` keys the table
+    by the masked address, creates `rate.NewLimiter(Limit, Burst)` for a missing key, and — with
+    the entry's lock held — skips an entry that gc has marked dead (reloading), records
+    `lastSeen = now` and asks the bucket at the caller's time -/
 theorem pins_mask :
     Facts.lim_mask_body = "{ addr = addr.Unmap() if addr.Is4() { return netip.PrefixFrom(addr, cl.opts.V4Mask).Masked().Addr() } if addr.Is6() { return netip.PrefixFrom(addr, cl.opts.V6Mask).Masked().Addr() } return netip.Addr{} }" ∧
-    Facts.lim_cl_key = "cl.mask(addr)" ∧
-    Facts.lim_cl_newlimiter_rate = "rate.Limit(cl.opts.Limit)" ∧
-    Facts.lim_cl_newlimiter_burst = "cl.opts.Burst" ∧
-    Facts.lim_cl_allow_time = "now" ∧
-    Facts.lim_cl_allow_n = "n" ∧
-    Facts.lim_cl_lastSeen = "e.lastSeen = now" := ⟨rfl, rfl, rfl, rfl, rfl, rfl, rfl⟩
+    Facts.lim_allowN_body = "{ key := cl.mask(addr) for { e, _ := cl.m.LoadOrCompute(key, func() *e { return &e{l: rate.NewLimiter(rate.Limit(cl.opts.Limit), cl.opts.Burst)} }) e.m.Lock() if e.dead { e.m.Unlock() continue } e.lastSeen = now ok := e.l.AllowN(now, n) e.m.Unlock() return ok } }" := ⟨rfl, rfl⟩
 
-/-- `gc` drops an entry only if it was last seen more than `entryTtl` ago *and* its bucket is full (`gcRequiresFull`) -/
+/-- `gc` (one locked region per entry): an entry is dropped only if it was last seen more than
+    `entryTtl` ago *and* its bucket is full (`gcRequiresFull`, repair 0275661); it is marked
+    dead and deleted from the map before the entry's lock is released (repair 8757f14) -/
 theorem pins_gc :
     Facts.lim_entryTtl = entryTtl ∧
-    Facts.lim_gc_ddl = "ddl := now.Add(-entryTtl)" ∧
-    Facts.lim_gc_full = "full := value.l.TokensAt(now) >= float64(value.l.Burst())" ∧
-    Facts.lim_gc_cond = "lastSeen.Before(ddl) && full" ∧
-    Facts.lim_gc_delete = "cl.m.Delete(key)" := ⟨rfl, rfl, rfl, rfl, rfl⟩
+    Facts.lim_gc_body = "{ now := time.Now() ddl := now.Add(-entryTtl) cl.m.Range(func(key netip.Addr, value *e) bool { value.m.Lock() full := value.l.TokensAt(now) >= float64(value.l.Burst()) if value.lastSeen.Before(ddl) && full { value.dead = true cl.m.Delete(key) } value.m.Unlock() return true }) }" := ⟨rfl, rfl⟩
 
 /-- the cost table -/
 theorem pins_costs :
@@ -467,6 +476,7 @@ theorem pins_admission :
     Facts.lim_quic_query_addr = "remoteAddr.Addr()" ∧
     Facts.lim_quic_query_cost = "costQUICQuery" ∧
     Facts.lim_quic_query_remote = "remoteAddr := netAddr2NetipAddr(c.RemoteAddr())" ∧
+    Facts.lim_quic_query_branch = "if err := s.r.limiterAllowN(remoteAddr.Addr(), costQUICQuery); err != nil { stream.Close() stream.CancelRead(0) continue }" ∧
     Facts.lim_gnet_conn_addr = "cc.remoteAddr.Addr()" ∧
     Facts.lim_gnet_conn_cost = "costTCPConn" ∧
     Facts.lim_gnet_conn_ctx = "cc := &connCtx{ remoteAddr: netAddr2NetipAddr(c.RemoteAddr()), localAddr: netAddr2NetipAddr(c.LocalAddr()), idleTimer: time.AfterFunc(e.idleTimeout, func() { c.Close() }), }" ∧
@@ -475,7 +485,7 @@ theorem pins_admission :
     Facts.lim_post_cache_cost = "costFromCache" ∧
     Facts.lim_post_up_addr = "rc.RemoteAddr.Addr()" ∧
     Facts.lim_post_up_cost = "costFromUpstream" ∧
-    Facts.lim_post_count = 2 := ⟨rfl, rfl, rfl, rfl, rfl, rfl, rfl, rfl, rfl, rfl, rfl, rfl, rfl, rfl, rfl, rfl, rfl, rfl, rfl, rfl, rfl, rfl, rfl, rfl, rfl, rfl, rfl, rfl, rfl, rfl, rfl, rfl, rfl, rfl, rfl⟩
+    Facts.lim_post_count = 2 := ⟨rfl, rfl, rfl, rfl, rfl, rfl, rfl, rfl, rfl, rfl, rfl, rfl, rfl, rfl, rfl, rfl, rfl, rfl, rfl, rfl, rfl, rfl, rfl, rfl, rfl, rfl, rfl, rfl, rfl, rfl, rfl, rfl, rfl, rfl, rfl, rfl⟩
 
 /-- the model's constants are the pinned ones -/
 theorem pins_model_constants :
